@@ -58,7 +58,7 @@ Proof.
         if usedfresh && range_in_use psh h e_span 1 then CErrOracle
         else COk (mk_heap (cl_update c cs' (h_classes h)) (h_big h), s0, block_offset (class_bs c) i, class_bs c)
     | CErrOracle => CErrOracle | CErrCorrupt => CErrCorrupt
-    | CErrBadFree => CErrBadFree | CErrUnmodelled => CErrUnmodelled
+    | CErrBadFree => CErrBadFree | CErrUnmodelled => CErrUnmodelled | CNull => CNull
     end = COk (h', s, off, us) ->
     size <= us /\ address s off mod LALLOC_ALIGN = 0 /\ SPAN_HEADER_SIZE <= off /\
     off + us <= SPAN_SIZE /\ ~ In (s, (off - SPAN_HEADER_SIZE) / us) live).
@@ -67,7 +67,7 @@ Proof.
     pose proof (class_alloc_safe (class_bc c) (chunk_of psh (class_bs c) (class_bc c)) R (chunk_of_ok psh c V)
                   (cl_lookup c (h_classes h)) live e_span CI) as S.
     destruct (class_alloc (class_bc c) (chunk_of psh (class_bs c) (class_bc c)) (cl_lookup c (h_classes h)) e_span)
-      as [[[cs' [s0 i]] uf]| | | |]; try discriminate.
+      as [[[cs' [s0 i]] uf]| | | | |]; try discriminate.
     destruct S as (_ & Nin & Ri). simpl in Ri.
     destruct (uf && range_in_use psh h e_span 1); [discriminate|].
     cbv beta iota in E. apply COk_inj in E. apply tuple4_inj in E. destruct E as (E1 & E2 & E3 & E4). subst h' s off us.
@@ -84,7 +84,11 @@ Proof.
     apply orb_false_elim in Q. destruct Q as [Q _]. apply orb_false_elim in Q. destruct Q as [Q _].
     apply Z.ltb_ge in Q. apply COk_inj in HA. apply tuple4_inj in HA. destruct HA as (E1 & E2 & E3 & E4). subst h' s off us.
     split; [apply Fit; assumption|]. split; [apply header_aligned|]. split; [lia | reflexivity].
-  - destruct (range_in_use psh h e_span (big_units psh (BHuge (huge_pages psh size)))); [discriminate|].
+  - destruct (huge_request psh size) as [np|] eqn:HR; [|discriminate].
+    assert (np = huge_pages psh size).
+    { unfold huge_request in HR. destruct (HUGE_OVERFLOW_GUARD && _); [discriminate | inversion HR; reflexivity]. }
+    subst np.
+    destruct (range_in_use psh h e_span (big_units psh (BHuge (huge_pages psh size)))); [discriminate|].
     apply COk_inj in HA. apply tuple4_inj in HA. destruct HA as (E1 & E2 & E3 & E4). subst h' s off us. destruct (huge_fits psh size Hp H0 Hw) as [F _].
     split; [assumption|]. split; [apply header_aligned|]. split; [lia | reflexivity].
 Qed.
